@@ -1,4 +1,97 @@
-(* Props/C01.v — placeholder until Engine_Proofs lands; replaced below in this session *)
-From RBQL Require Import Base.
-Example C01_placeholder : True. Proof. exact I. Qed.
-Print Assumptions C01_placeholder.
+(* Props/C01.v — SELECT/WHERE yields exactly the projected matching records, in input order.
+   ONLY statements, each closed by a lemma of Engine_Proofs / a computation, with Print Assumptions. *)
+From RBQL Require Import Base Value Like Expr Writers Join Agg Engine Spec Engine_Proofs.
+
+(* The output of a non-aggregate SELECT without ORDER BY / DISTINCT / TOP, for EVERY expression semantics
+   [eval] (the theorem is parametric in the expression language): if every evaluation succeeds, the rows
+   accepted by the output writer are, in order,
+       [ row | (nr, a) <- enumerate(A, 1), b <- matches(a), row <- rows(select list, WHERE, env nr a b) ]
+   no error is reported and every input record is pulled exactly once. *)
+Theorem C01_select_where :
+  forall (expr : Type) (eval : env -> expr -> res val) (q : query expr) hdr A B jm offs,
+    is_agg q = false -> is_update q = false -> static_check q = None ->
+    q_order q = None -> q_distinct q = DNo -> q_top q = None ->
+    join_map_of expr q B = Some jm ->
+    all_offers expr eval q jm 0 A = Ok offs ->
+    let o := run eval yes q hdr A B in
+    o_error o = None
+    /\ written (o_chain o) = map snd (offers_comprehension expr eval q jm A)
+    /\ o_pulls o = length A.
+Proof.
+  intros expr eval q hdr A B jm offs Hagg Hupd Hst Ho Hd Ht Hjm Hoff o.
+  destruct (run_select_rows expr eval q hdr A B jm offs Hagg Hupd Hst Hjm Hoff) as [H1 H2].
+  destruct (run_select expr eval yes q hdr A B jm offs Hagg Hupd Hst Hjm Hoff) as [_ [_ [_ H4]]].
+  split; [exact H1|]. split.
+  - fold o in H2. rewrite H2. unfold chain_spec, cfg_of. rewrite Ho, Hd, Ht. cbn.
+    rewrite (all_offers_flat expr eval q jm A 0 offs Hoff). reflexivity.
+  - apply H4. unfold cfg_of. rewrite Ho, Hd, Ht.
+    clear. generalize (set_header chain_init hdr). induction offs as [|[k r] offs IH]; intros st; [reflexivity|].
+    cbn. apply IH.
+Qed.
+Print Assumptions C01_select_where.
+
+(* bindings inside expressions (concrete fragment): aN / a[N] is the N-th field or None, NR the 1-based
+   record number, NF the field count *)
+Theorem C01_bindings : forall fl nr (a : rec) b nu i,
+  eval fl (env_of nr a b nu) (EFld TA i) = Ok (VA (nth i a ANone))
+  /\ eval fl (env_of nr a b nu) ENR = Ok (VInt (Z.of_nat nr))
+  /\ eval fl (env_of nr a b nu) ENF = Ok (VInt (Z.of_nat (length a))).
+Proof. intros. repeat split. Qed.
+Print Assumptions C01_bindings.
+
+(* star forms and EXCEPT expand in place *)
+Theorem C01_star_except : forall (expr : Type) (eval : env -> expr -> res val) nr (a : rec) nu,
+  let en := env_of nr a BNoJoin nu in
+  eval_items eval en [IStar] None = Ok (map (fun x => SlVal (VA x)) a, None)
+  /\ eval_items eval en [IStarA] None = Ok (map (fun x => SlVal (VA x)) a, None)
+  /\ (forall idxs q, q_kind q = QExcept idxs -> q_where q = None -> q_order q = None ->
+        select_rows eval q en = Ok [([], map VA (select_except a idxs 0))]).
+Proof.
+  intros expr eval nr a nu en. repeat split.
+  - cbn. rewrite app_nil_r. reflexivity.
+  - cbn. rewrite app_nil_r. reflexivity.
+  - intros idxs q Hk Hw Ho. unfold select_rows, where_ok. rewrite Hw, Hk, Ho. reflexivity.
+Qed.
+Print Assumptions C01_star_except.
+
+(* a single UNNEST(list) item emits one record per element, the element substituted in place; none for [] *)
+Theorem C01_unnest :
+  forall (expr : Type) (eval : env -> expr -> res val) (q : query expr) en items sl l,
+    q_kind q = QSelect items -> q_where q = None -> q_order q = None ->
+    eval_items eval en items None = Ok (sl, Some (VL l)) ->
+    select_rows eval q en = Ok (map (fun x => ([], subst_unnest sl (VA x))) l).
+Proof.
+  intros expr eval q en items sl l Hk Hw Ho He. unfold select_rows, where_ok. rewrite Hw, Hk, Ho. cbn.
+  rewrite He. cbn. rewrite map_map. reflexivity.
+Qed.
+Print Assumptions C01_unnest.
+
+Theorem C01_unnest_position : forall pre post v,
+  subst_unnest (map SlVal pre ++ SlUnnest :: map SlVal post) v = pre ++ v :: post.
+Proof.
+  intros pre post v. induction pre as [|x pre IH]; cbn.
+  - f_equal. induction post as [|y post IH]; cbn; [reflexivity | f_equal; assumption].
+  - f_equal. assumption.
+Qed.
+Print Assumptions C01_unnest_position.
+
+(* non-vacuity: a ragged table, WHERE, star, UNNEST and a join with two matches for one record
+   (the shape that failed before the unnest_list fix): hypotheses hold and the run equals the spec *)
+Definition ex_q : query expr :=
+  {| q_kind := QSelect [IExpr (EFld TA 0); IUnnest (EList [EFld TB 1; ELit (AStr [33%N])]); IStarA];
+     q_where := Some (ENe (EFld TA 0) (ELit (AStr [122%N])));
+     q_join := Some {| j_kind := JInner; j_lhs := [LFld 0]; j_rhs := [RFld 0] |};
+     q_group := None; q_order := None; q_distinct := DNo; q_top := None |}.
+Definition ex_A : list rec := [[AStr [49%N]]; [AStr [122%N]; ANone]; [AStr [50%N]; AStr [120%N]; AStr [121%N]]].
+Definition ex_B : list rec := [[AStr [49%N]; AStr [112%N]]; [AStr [49%N]; AStr [113%N]]; [AStr [50%N]; AStr [114%N]]].
+
+Example C01_nonvacuous :
+  exists jm offs,
+    join_map_of expr ex_q ex_B = Some jm /\ all_offers expr (eval Py) ex_q jm 0 ex_A = Ok offs
+    /\ length offs = 6
+    /\ written (o_chain (run (eval Py) yes ex_q None ex_A ex_B)) = map snd offs.
+Proof.
+  eexists. eexists. split; [vm_compute; reflexivity|]. split; [vm_compute; reflexivity|].
+  split; vm_compute; reflexivity.
+Qed.
+Print Assumptions C01_nonvacuous.
